@@ -1,0 +1,240 @@
+//go:build verif
+// +build verif
+
+package rpc
+
+// Hooks for the verification harness under /verif. This file is compiled
+// only with -tags verif; it adds read-only snapshots of private state and
+// thin wrappers around unexported functions, and edits no existing line.
+
+import (
+	"sort"
+	"time"
+)
+
+// ---- wire ----
+
+// VerifUpgradeMarshal exposes (*upgrade).Marshal.
+func VerifUpgradeMarshal(noRequest, noResponse, heartbeat, stream byte, buf []byte) ([]byte, error) {
+	u := &upgrade{NoRequest: noRequest, NoResponse: noResponse, Heartbeat: heartbeat, Stream: stream}
+	return u.Marshal(buf)
+}
+
+// VerifUpgradeUnmarshal exposes (*upgrade).Unmarshal.
+func VerifUpgradeUnmarshal(data []byte) (noRequest, noResponse, heartbeat, stream byte, n uint64, err error) {
+	u := &upgrade{}
+	n, err = u.Unmarshal(data)
+	return u.NoRequest, u.NoResponse, u.Heartbeat, u.Stream, n, err
+}
+
+// VerifUpgradeIsZero exposes (*upgrade).IsZero.
+func VerifUpgradeIsZero(noRequest, noResponse, heartbeat, stream byte) bool {
+	u := &upgrade{NoRequest: noRequest, NoResponse: noResponse, Heartbeat: heartbeat, Stream: stream}
+	return u.IsZero()
+}
+
+// VerifCheckBuffer exposes checkBuffer.
+func VerifCheckBuffer(buf []byte, n int) []byte { return checkBuffer(buf, n) }
+
+// VerifNewContext builds a codec Context the way Conn.send / Server do,
+// including the private upgrade record.
+func VerifNewContext(seq uint64, noRequest, noResponse, heartbeat, stream byte, method, errText string) *Context {
+	u := &upgrade{NoRequest: noRequest, NoResponse: noResponse, Heartbeat: heartbeat, Stream: stream}
+	ctx := &Context{Seq: seq, ServiceMethod: method, Error: errText, upgrade: u}
+	if !u.IsZero() {
+		ctx.Upgrade, _ = u.Marshal(nil)
+	}
+	return ctx
+}
+
+// VerifContextData sets / reads the private frame fields of a Context.
+func (ctx *Context) VerifSetData(data []byte) { ctx.data = data }
+
+// VerifValue returns the body bytes a header decode left in the Context.
+func (ctx *Context) VerifValue() []byte { return ctx.value }
+
+// ---- Conn ----
+
+// ConnSnapshot is a read-only copy of a Conn's private state.
+type ConnSnapshot struct {
+	Seq      uint64
+	Pending  []uint64
+	Streams  []uint64
+	Closing  bool
+	Shutdown bool
+}
+
+// VerifSnapshot returns the connection's private state under its mutex.
+func (conn *Conn) VerifSnapshot() ConnSnapshot {
+	conn.mutex.Lock()
+	defer conn.mutex.Unlock()
+	s := ConnSnapshot{Seq: conn.seq, Closing: conn.closing, Shutdown: conn.shutdown}
+	for k := range conn.pending {
+		s.Pending = append(s.Pending, k)
+	}
+	for k := range conn.streams {
+		s.Streams = append(s.Streams, k)
+	}
+	sort.Slice(s.Pending, func(i, j int) bool { return s.Pending[i] < s.Pending[j] })
+	sort.Slice(s.Streams, func(i, j int) bool { return s.Streams[i] < s.Streams[j] })
+	return s
+}
+
+// ---- Transport ----
+
+// PersistConnSnapshot describes one pooled connection.
+type PersistConnSnapshot struct {
+	ID       uintptr
+	Alive    bool
+	Closing  bool
+	Shutdown bool
+	NumCalls uint64
+	Age      time.Duration
+}
+
+// TransportSnapshot is a read-only copy of a Transport's private state.
+type TransportSnapshot struct {
+	Running             bool
+	Closed              bool
+	MaxConnsPerHost     int
+	MaxIdleConnsPerHost int
+	KeepAlive           time.Duration
+	IdleConnTimeout     time.Duration
+	Active              map[string][]PersistConnSnapshot
+	Cursor              map[string]int
+	Idle                map[string][]PersistConnSnapshot
+	IdleCap             map[string]int
+}
+
+func verifPC(pc *persistConn, now time.Time) PersistConnSnapshot {
+	pc.mu.Lock()
+	alive := pc.alive
+	pc.mu.Unlock()
+	cs := pc.Conn.VerifSnapshot()
+	return PersistConnSnapshot{ID: verifID(pc), Alive: alive, Closing: cs.Closing, Shutdown: cs.Shutdown,
+		NumCalls: pc.NumCalls(), Age: now.Sub(pc.lastTime)}
+}
+
+// VerifSnapshot returns the pool's private state under connsMu.
+func (t *Transport) VerifSnapshot() TransportSnapshot {
+	t.connsMu.Lock()
+	defer t.connsMu.Unlock()
+	now := time.Now()
+	s := TransportSnapshot{Running: t.running, Closed: t.closed != 0, MaxConnsPerHost: t.MaxConnsPerHost,
+		MaxIdleConnsPerHost: t.MaxIdleConnsPerHost, KeepAlive: t.KeepAlive, IdleConnTimeout: t.IdleConnTimeout,
+		Active: map[string][]PersistConnSnapshot{}, Cursor: map[string]int{}, Idle: map[string][]PersistConnSnapshot{}, IdleCap: map[string]int{}}
+	for addr, cs := range t.conns {
+		l := []PersistConnSnapshot{}
+		for _, pc := range cs.Conns {
+			l = append(l, verifPC(pc, now))
+		}
+		s.Active[addr] = l
+		s.Cursor[addr] = cs.cursor
+	}
+	for addr, cq := range t.idleConns {
+		l := []PersistConnSnapshot{}
+		for n := cq.front.next; n != nil && n != cq.rear; n = n.next {
+			l = append(l, verifPC(n.value, now))
+		}
+		s.Idle[addr] = l
+		s.IdleCap[addr] = cq.capacity
+	}
+	return s
+}
+
+// VerifSetTicker sets the private housekeeping period (before first use).
+func (t *Transport) VerifSetTicker(d time.Duration) { t.ticker = d }
+
+// VerifBackdate moves every pooled connection's lastTime back by d (virtual time).
+func (t *Transport) VerifBackdate(d time.Duration) {
+	t.connsMu.Lock()
+	defer t.connsMu.Unlock()
+	for _, cs := range t.conns {
+		for _, pc := range cs.Conns {
+			pc.lastTime = pc.lastTime.Add(-d)
+		}
+	}
+	for _, cq := range t.idleConns {
+		for n := cq.front.next; n != nil && n != cq.rear; n = n.next {
+			n.value.lastTime = n.value.lastTime.Add(-d)
+		}
+	}
+}
+
+// ---- Client ----
+
+// TargetSnapshot describes one target of a Client.
+type TargetSnapshot struct {
+	Address string
+	Alive   bool
+	Latency int64
+}
+
+// ClientSnapshot is a read-only copy of a Client's private state.
+type ClientSnapshot struct {
+	Targets  []TargetSnapshot // sorted by address
+	List     []string         // c.list in its real order
+	MinHeap  []string
+	Last     []string
+	Pos      int
+	Waiters  int
+	Closed   bool
+	Fallback int32
+}
+
+// VerifSnapshot returns the client's private state under its lock.
+func (c *Client) VerifSnapshot() ClientSnapshot {
+	c.lock.Lock()
+	defer c.lock.Unlock()
+	s := ClientSnapshot{Pos: c.pos, Waiters: len(c.pending), Closed: c.closed != 0, Fallback: c.fallback}
+	for _, t := range c.targets {
+		s.Targets = append(s.Targets, TargetSnapshot{t.address, t.alive, t.latency})
+	}
+	sort.Slice(s.Targets, func(i, j int) bool { return s.Targets[i].Address < s.Targets[j].Address })
+	for _, t := range c.list {
+		s.List = append(s.List, t.address)
+	}
+	for _, t := range c.minHeap {
+		s.MinHeap = append(s.MinHeap, t.address)
+	}
+	s.Last = append(s.Last, c.last...)
+	return s
+}
+
+// VerifBackdateProbe moves the least-time probe clock back by d.
+func (c *Client) VerifBackdateProbe(d time.Duration) {
+	c.lock.Lock()
+	c.lastTime = c.lastTime.Add(-d)
+	c.lock.Unlock()
+}
+
+// VerifTargetUpdate exposes (*target).Update on a fresh target.
+func VerifTargetUpdate(old int64, alive bool, alpha float64, new int64, err error) (latency int64, nowAlive bool) {
+	t := &target{latency: old, alive: alive}
+	t.Update(alpha, new, err)
+	return t.latency, t.alive
+}
+
+// VerifMinHeap exposes minHeap on a list of latencies; it returns the
+// permutation of indices after heapify.
+func VerifMinHeap(lat []int64) []int {
+	l := make(list, len(lat))
+	idx := map[*target]int{}
+	for i, v := range lat {
+		l[i] = &target{latency: v}
+		idx[l[i]] = i
+	}
+	minHeap(l)
+	out := make([]int, len(l))
+	for i, t := range l {
+		out[i] = idx[t]
+	}
+	return out
+}
+
+// VerifCursor exposes (*conns).Cursor.
+func VerifCursor(n, cursor int) (int, int) {
+	c := &conns{Conns: make([]*persistConn, n), cursor: cursor}
+	r := c.Cursor()
+	return r, c.cursor
+}
